@@ -11,6 +11,7 @@ RULE = (
     "answering with absent, empty or non-empty data sets; non-trivial = at least one message with an empty or absent optional "
     "data set crossed the wire; distinct = distinct (operation, request data-set kind, response data-set kind) combinations "
     "x segmentation/max-PDU configuration (inputs dominate: schedule diversity adds nothing to this property)"
+    " Non-empty data sets are also sized to fill 1-3 fragments of the peer's maximum exactly (no short last fragment)."
     " C-STORE is sent from memory and, in chunked mode, straight from a DICOM file - including a file that holds only the preamble and File Meta (empty data set)."
 )
 ASSUMPTIONS = ["fault-free network", "inputs dominate; the simulator supplies the deterministic two-party execution"]
@@ -33,6 +34,10 @@ def directed(tier):
                 if not _valid(op, rq, rs):
                     continue
                 out.append({"ops": [{"op": op, "rq": rq, "rsp": rs}], "max_pdu": 16382, "sched": {"switch_pct": 20}, "net": {"seg": "whole"}})
+                if "nonempty" in (rq, rs):
+                    # the same message with data sets that fill 1 and 2 fragments of the peer's maximum exactly
+                    for k, mp in ((1, 256), (2, 16382)):
+                        out.append({"ops": [{"op": op, "rq": rq, "rsp": rs, "rq_fit": k, "rsp_fit": k}], "max_pdu": mp, "sched": {"switch_pct": 20}, "net": {"seg": "whole"}})
     return out
 
 
@@ -61,6 +66,11 @@ def gen(rng, idx, tier):
             if _valid(op, rq, rs):
                 break
         ops.append({"op": op, "rq": rq, "rsp": rs})
+        # a non-empty data set that fills its last fragment exactly (k fragments of the peer's maximum)
+        if rng.randrange(3) == 0:
+            ops[-1]["rq_fit"] = rng.choice([1, 2, 3])
+        if rng.randrange(3) == 0:
+            ops[-1]["rsp_fit"] = rng.choice([1, 2, 3])
     return {"ops": ops, "max_pdu": rng.choice([0, 64, 256, 16382]), "sched": C.gen_sched(rng, fine_pct=10), "net": C.gen_net(rng)}
 
 
@@ -80,7 +90,25 @@ def shrink(sc):
         yield d
 
 
-def _ds(kind, n=0):
+def _fit(ds, k, max_pdu):
+    """Pad `ds` so that its encoded length is exactly k (or the next possible
+    multiple) times the room a data-set PDV has under `max_pdu`."""
+    from pynetdicom.dsutils import encode
+
+    if not k or max_pdu <= 0 or ds is None:
+        return ds
+    room = max_pdu - 6
+    l0 = len(encode(ds, True, True))
+    target = k * room
+    while target < l0 + 10:
+        target += room
+    pad = target - l0 - 8
+    if pad % 2 == 0:
+        ds.ImageComments = "x" * pad
+    return ds
+
+
+def _ds(kind, n=0, fit=None, max_pdu=0):
     from pydicom.dataset import Dataset
 
     if kind == "none":
@@ -90,7 +118,7 @@ def _ds(kind, n=0):
     ds = Dataset()
     ds.PatientName = "X^%d" % n
     ds.PatientID = "P%d" % n
-    return ds
+    return _fit(ds, fit, max_pdu)
 
 
 def execute(sc, ctx):
@@ -98,7 +126,8 @@ def execute(sc, ctx):
     from pynetdicom.sop_class import Verification
 
     sim = ctx.sim
-    cur = {"rsp": "none"}
+    cur = {"rsp": "none", "fit": None}
+    mp = sc["max_pdu"]
 
     def rec(name):
         def deco(fn):
@@ -120,7 +149,7 @@ def execute(sc, ctx):
         sim.record("handler", op="find", assoc=ctx.label(event.assoc), msg_id=event.request.MessageID)
         k = cur["rsp"]
         if k == "nonempty":
-            yield 0xFF00, _ds("nonempty", 1)
+            yield 0xFF00, _ds("nonempty", 1, cur["fit"], mp)
         elif k == "empty":
             yield 0xFF00, _ds("empty")
 
@@ -129,7 +158,7 @@ def execute(sc, ctx):
         k = cur["rsp"]
         if k == "nonempty":
             yield 1
-            yield 0xFF00, C.store_ds(0)
+            yield 0xFF00, _fit(C.store_ds(0), cur["fit"], mp)
         elif k == "empty":
             yield 1
             yield 0xA701, None   # failure before any sub-operation: final response with empty failed list
@@ -142,7 +171,7 @@ def execute(sc, ctx):
         if k == "nonempty":
             yield "127.0.0.1", 11113
             yield 1
-            yield 0xFF00, C.store_ds(0)
+            yield 0xFF00, _fit(C.store_ds(0), cur["fit"], 16382)
         elif k == "empty":
             yield None, None     # unknown destination
         else:
@@ -152,7 +181,7 @@ def execute(sc, ctx):
     def n_handler(name):
         def h(event):
             sim.record("handler", op=name, assoc=ctx.label(event.assoc), msg_id=event.request.MessageID)
-            return 0x0000, _ds(cur["rsp"], 2)
+            return 0x0000, _ds(cur["rsp"], 2, cur["fit"], mp)
         return h
 
     def on_n_delete(event):
@@ -163,18 +192,18 @@ def execute(sc, ctx):
           (evt.EVT_C_MOVE, on_move), (evt.EVT_N_GET, n_handler("n_get")), (evt.EVT_N_SET, n_handler("n_set")),
           (evt.EVT_N_ACTION, n_handler("n_action")), (evt.EVT_N_CREATE, n_handler("n_create")),
           (evt.EVT_N_DELETE, on_n_delete), (evt.EVT_N_EVENT_REPORT, n_handler("n_event_report"))]
-    scp = ctx.make_ae("SCP", acse=1.0, dimse=0.6, network=2.0, max_pdu=sc["max_pdu"])
+    scp = ctx.make_ae("SCP", acse=30.0, dimse=60.0, network=120.0, max_pdu=sc["max_pdu"])
     for u in (C.VERIFICATION, C.PR_FIND, C.PR_GET, C.PR_MOVE, C.PRINTER, C.BASIC_FILM_SESSION):
         scp.add_supported_context(u)
     scp.add_supported_context(C.CT, scu_role=True, scp_role=True)
     scp.add_requested_context(C.CT)
     ctx.start_server(scp, handlers=hh)
     # C-MOVE destination: a second acceptor on port 11113
-    dest = ctx.make_ae("DEST", acse=1.0, dimse=0.6, network=2.0)
+    dest = ctx.make_ae("DEST", acse=30.0, dimse=60.0, network=120.0)
     dest.add_supported_context(C.CT)
     ctx.start_server(dest, port=11113, handlers=[(evt.EVT_C_STORE, on_store)])
 
-    scu = ctx.make_ae("SCU", acse=1.0, dimse=0.6, network=2.0, max_pdu=sc["max_pdu"])
+    scu = ctx.make_ae("SCU", acse=30.0, dimse=60.0, network=120.0, max_pdu=sc["max_pdu"])
     for u in (C.VERIFICATION, C.PR_FIND, C.PR_GET, C.PR_MOVE, C.PRINTER, C.BASIC_FILM_SESSION, C.CT):
         scu.add_requested_context(u)
     assoc = ctx.associate(scu, handlers=[(evt.EVT_C_STORE, on_store)], ext_neg=[build_role(C.CT, scu_role=True, scp_role=True)])
@@ -185,8 +214,8 @@ def execute(sc, ctx):
         if not assoc.is_established:
             res.append("not-established")
             break
-        cur["rsp"] = op["rsp"]
-        o, ds = op["op"], _ds(op["rq"], i)
+        cur["rsp"], cur["fit"] = op["rsp"], op.get("rsp_fit")
+        o, ds = op["op"], _ds(op["rq"], i, op.get("rq_fit"), mp)
         mid = i + 1
         sim.record("user_op", op=o, phase="call", msg_id=mid)
         try:
@@ -194,14 +223,14 @@ def execute(sc, ctx):
                 st = assoc.send_c_echo(msg_id=mid)
                 out = _st(st)
             elif o == "store":
-                out = _st(assoc.send_c_store(C.store_ds(i), msg_id=mid))
+                out = _st(assoc.send_c_store(_fit(C.store_ds(i), op.get("rq_fit"), mp), msg_id=mid))
             elif o == "store_file":
                 import os
                 import tempfile
                 from pydicom.dataset import Dataset, FileMetaDataset
                 from pynetdicom import _config
 
-                fds = C.store_ds(i) if op["rq"] == "nonempty" else Dataset()
+                fds = _fit(C.store_ds(i), op.get("rq_fit"), mp) if op["rq"] == "nonempty" else Dataset()
                 meta = FileMetaDataset()
                 meta.MediaStorageSOPClassUID = C.CT
                 meta.MediaStorageSOPInstanceUID = "1.2.3.4.%d" % (i + 1)
@@ -313,7 +342,7 @@ def check(sc, r):
 
 def nontrivial(sc, r):
     if any(op["rq"] != "nonempty" or op["rsp"] != "nonempty" for op in sc["ops"]):
-        return (tuple((o["op"], o["rq"], o["rsp"]) for o in sc["ops"]), sc["max_pdu"], sc["net"].get("seg"))
+        return (tuple((o["op"], o["rq"], o["rsp"], o.get("rq_fit"), o.get("rsp_fit")) for o in sc["ops"]), sc["max_pdu"], sc["net"].get("seg"))
     return None
 
 
